@@ -51,7 +51,8 @@ fn random_field(rng: &mut Rng, depth: u32, used: &mut Vec<(u8, u32)>, der: bool)
         4 => { let k = *rng.pick(&[0usize, 1, 2, 5, 127, 128, 200, 998, 999]); let b = rng.bytes(k); let u = if k == 0 { 0 } else { rng.below(8) as u8 };
                log_tag(&mut log, c, n, false); log.push(u as i128); log_bytes(&mut log, &b);
                Field { enc: Dyn::Bits(c, n, u, b), dec: Prog::Take { opt: false, kind: 0, exp: Some(tag), body: Body::Typed(14) }, log, tag } }
-        5 => { let k = *rng.pick(&[0usize, 1, 3, 127, 128, 255, 256, 300]); let b = rng.bytes(k); log_tag(&mut log, c, n, false); log.push(0); log_bytes(&mut log, &b);
+        5 => { // sizes that put this value, or the record around it, next to a length-octet boundary
+               let k = match rng.below(4) { 0 => rng.range(118, 132) as usize, 1 => rng.range(246, 260) as usize, _ => *rng.pick(&[0usize, 1, 3, 127, 128, 255, 256, 300]) }; let b = rng.bytes(k); log_tag(&mut log, c, n, false); log.push(0); log_bytes(&mut log, &b);
                Field { enc: Dyn::Prim(c, n, b), dec: Prog::Take { opt: false, kind: 1, exp: Some(tag), body: Body::Generic }, log, tag } }
         6 => { // arbitrary-size Integer content kept verbatim
                let v = crate::c14::ref_tc_min(rng.bool(), rng.u128() >> rng.below(120)); log_tag(&mut log, c, n, false); log_bytes(&mut log, &v);
